@@ -1,0 +1,81 @@
+//go:build verif
+
+package flushkv
+
+// Contracts for the flush-after-write wrapper of a KVStore (property C04: a wrapper forwards every operation unchanged), read by the
+// verification machinery in /verif. Comment-only file. Each method calls the method of the SAME name of the wrapped
+// store with the same arguments (also the optional iteration direction), and a mutator flushes exactly after a successful write. What the wrapped store does is its own
+// contract (mapdb: verified; others: the KVStore interface).
+
+/*@
+global wrok Bool     -- the write of the running call succeeded (ghost)
+
+-- the wrapped store: whatever it does, it does not reach the wrapper object (assumed)
+assume-func github.com/iotaledger/hive.go/kvstore.KVStore.Clear(st) (err)
+  ensures true
+assume-func github.com/iotaledger/hive.go/kvstore.KVStore.Set(st, k, v) (err)
+  ensures true
+assume-func github.com/iotaledger/hive.go/kvstore.KVStore.Delete(st, k) (err)
+  ensures true
+assume-func github.com/iotaledger/hive.go/kvstore.KVStore.DeletePrefix(st, p) (err)
+  ensures true
+
+func flushKVStore.Iterate
+  requires s != nil && s.store != nil
+  modifies everything
+  ghost before call KVStore.Iterate: assert arg0 == s.store && arg1 == prefix && arg2 == consumerFunc && arg3 == iterDirection
+
+func flushKVStore.IterateKeys
+  requires s != nil && s.store != nil
+  modifies everything
+  ghost before call KVStore.IterateKeys: assert arg0 == s.store && arg1 == prefix && arg2 == consumerFunc && arg3 == iterDirection
+
+func flushKVStore.Clear
+  requires s != nil && s.store != nil
+  modifies everything
+  ghost before call KVStore.Clear: assert arg0 == s.store
+  ghost after call KVStore.Clear: wrok = (result == nil)
+  ghost before call KVStore.Flush: assert wrok && arg0 == s.store        -- flushed only after the write succeeded
+
+func flushKVStore.Get
+  requires s != nil && s.store != nil
+  modifies everything
+  ghost before call KVStore.Get: assert arg0 == s.store && arg1 == key
+
+func flushKVStore.Set
+  requires s != nil && s.store != nil
+  modifies everything
+  ghost before call KVStore.Set: assert arg0 == s.store && arg1 == key && arg2 == value
+  ghost after call KVStore.Set: wrok = (result == nil)
+  ghost before call KVStore.Flush: assert wrok && arg0 == s.store        -- flushed only after the write succeeded
+
+func flushKVStore.Has
+  requires s != nil && s.store != nil
+  modifies everything
+  ghost before call KVStore.Has: assert arg0 == s.store && arg1 == key
+
+func flushKVStore.Delete
+  requires s != nil && s.store != nil
+  modifies everything
+  ghost before call KVStore.Delete: assert arg0 == s.store && arg1 == key
+  ghost after call KVStore.Delete: wrok = (result == nil)
+  ghost before call KVStore.Flush: assert wrok && arg0 == s.store        -- flushed only after the write succeeded
+
+func flushKVStore.DeletePrefix
+  requires s != nil && s.store != nil
+  modifies everything
+  ghost before call KVStore.DeletePrefix: assert arg0 == s.store && arg1 == prefix
+  ghost after call KVStore.DeletePrefix: wrok = (result == nil)
+  ghost before call KVStore.Flush: assert wrok && arg0 == s.store        -- flushed only after the write succeeded
+
+func flushKVStore.Flush
+  requires s != nil && s.store != nil
+  modifies everything
+  ghost before call KVStore.Flush: assert arg0 == s.store
+
+func flushKVStore.Close
+  requires s != nil && s.store != nil
+  modifies everything
+  ghost before call KVStore.Close: assert arg0 == s.store
+
+@*/
